@@ -16,6 +16,7 @@ sys.path.insert(0, os.path.join(HERE, "translators"))
 from common import cnat, clist, cpair, copt, cbool   # noqa: E402
 
 ID = "C03"
+DEPENDS = ["C02"]      # Proofs/C03_Link*.v relate the model to C02's sequential pointer/list models
 IMPORTS = ("From Boltons Require Import Lib.Prelude Lib.C03_Syntax Lib.C03_Conc Model.C03_Model "
            "Spec.C03_Spec Gen.C03_Gen Check.C03_Check.")
 CASE_TYPE = "c03_case"
